@@ -6,6 +6,8 @@ RUNNER = {"quick": [("MC_PamsRunner_quick", 900)], "thorough": [("MC_PamsRunner_
 SYSTEM = {"quick": [], "thorough": [("MC_PamsSystem_quick", 1800)]}
 HALT = {"quick": [("MC_PamsHalt_quick", 900)], "thorough": [("MC_PamsHalt_quick", 900), ("MC_PamsHalt_fixed", 3600)]}
 TABLE_EVENTS = [("MC_TableEvents", 900)]
+LOGGER = {"quick": [("MC_PamsLogger_quick", 600)], "thorough": [("MC_PamsLogger_quick", 600), ("MC_PamsLogger_thorough", 1800)]}
+HOOKS = {"quick": [("MC_PamsHooks_quick", 600)], "thorough": [("MC_PamsHooks_quick", 600), ("MC_PamsHooks_thorough", 1800)]}
 # design models that MUST be rejected by TLC: the defective design found in the pinned tree (regression of the spec)
 MUST_FAIL = {"C16": [("MC_PamsHalt_asis", 900)], "C09": [("MC_PamsHalt_asis", 900)]}
 
@@ -19,6 +21,10 @@ def plan(prop, tier):
         return RUNNER[tier] + HALT[tier] + SYSTEM[tier]
     if prop == "C05":
         return RUNNER[tier] + SYSTEM[tier]
+    if prop == "C13":
+        return RUNNER[tier] + HOOKS[tier]
+    if prop == "C10":
+        return RUNNER[tier] + LOGGER[tier]
     return RUNNER[tier]
 
 
